@@ -23,7 +23,12 @@ WRAPPERS = {          # name -> (prefix, suffix, allows_scoped_ops)
     'assert': ('assert cond;\n', '', False),
     'call': ('stdenv.mkDerivation ', '', False),
     'lambda_call': ('{ stdenv }:\nstdenv.mkDerivation ', '', False),
+    # coverage probe (cli/manipulations.py:_resolve_target_set_from_expr): the remaining ways the edited set is reached
+    'paren': ('(', ')', False), 'call_paren_arg': ('mk (', ')', False), 'call_curried': ('mk extra ', '', False), 'call_nested': ('outer (inner ', ')', False),
+    'with_assert': ('with pkgs;\nassert cond;\n', '', False), 'lambda_with': ('{ pkgs }:\nwith pkgs;\n', '', False),
+    'let_ident': ('let\n  cfg = ', ';\nin\ncfg', False), 'let_call_ident': ('let\n  cfg = ', ';\nin\nmk cfg', False),
 }
+INDENTED_BODY = ('let_ident', 'let_call_ident')
 LAYER_NAMES = ['v', 'w', 'src', 'a']
 def gen_layers(R, n):
     ls = [{k: R.choice(['1', '"s"', '[ 1 2 ]', './p.nix']) for k in R.sample(LAYER_NAMES, R.randint(1, 3))} for _ in range(n)]
@@ -60,7 +65,8 @@ def gen_doc(R, scoped=False, maxlayers=3, quoted=0.0, tiny=0.0, joints=0.0, attr
         for nm in R.sample(sorted({k for L in layers for k in L}), 1):
             refs.append('ref_' + nm); body = body.rstrip()[:-1] + '  ref_%s = %s;\n}' % (nm, nm)
     jt = [R.choice(['# joint %d\n' % i, '', '/* j%d */\n' % i, '# a\n# b\n']) if R.random() < joints else '' for i in range(nl)]
-    if shape in ('call', 'lambda_call'): text = pre + body + '\n'
+    if shape in INDENTED_BODY: text = pre + body.replace('\n', '\n  ') + suf + '\n'
+    elif shape in ('call', 'lambda_call') or not WRAPPERS[shape][2]: text = pre + body + suf + '\n'
     else:
         if layers and pre.endswith(' '): pre = pre[:-1] + '\n'          # a let under an inline lambda head starts on its own line
         text = pre + let_text(layers, body, jt) + suf + '\n'
